@@ -7,6 +7,7 @@ import PyYetiVerif.Lemmas.Op4Coo
 import PyYetiVerif.Lemmas.Op4Input
 import PyYetiVerif.Lemmas.Op4ReadBack
 import PyYetiVerif.Lemmas.Op4AsciiDir
+import PyYetiVerif.Lemmas.Op4AsciiCoo
 /-!
 # C04 — OUTPUT4 write followed by read is the identity
 
@@ -24,11 +25,19 @@ at the level of the 32-bit word stream of one column record (either byte order),
 at the level of the word stream of a file, `file_roundtrip_bytes` at the level of bytes with names and
 format detection.  For ASCII see the second half of the file.
 
-The two places where the unchanged code does **not** satisfy the property are explicit:
+The places where the unchanged code does **not** satisfy the property are explicit:
 * `pack_fits_i32`: the packed nonbigmat string header fits `struct.pack('i', …)` iff
   `L + 1 < 32768`; `nonbigmat_overflow_example` is the 16384-row real string (finding F2);
 * `fmtE_width`: a formatted value has the announced width `digits + 7` iff it is not a negative
-  value with a three-digit exponent; `ascii_overflow_example` is `-2.5e-120` (finding F3).
+  value with a three-digit exponent; `ascii_overflow_example` is `-2.5e-120` (finding F3);
+* `sparse_input_reclen_wraps`: a scipy.sparse input written in the binary dense layout computes its record
+  length in numpy int32 arithmetic; from a 2 GiB column record on it wraps to a negative marker where the ndarray
+  path raises (`write_domain`) — finding F45.
+
+Second half of the file (after the ASCII half): the writer's true domain (`write_domain`,
+`file_roundtrip_binary_domain`), the sparse views of the readers (`coo_view_correct`, `sparse_auto_rule`, ASCII:
+`sparse_views_ascii`), sparse inputs (`write_sparse_eq_write_dense`), `write` on its arguments
+(`write_input_normalised`), `float(decimal)` (`read_back_bits*`), `dir` on ASCII files (`dir_matches_load_ascii`).
 -/
 namespace PyYetiVerif.C04
 open PyYetiVerif.Op4 PyYetiVerif.Op4A PyYetiVerif.Generated.Op4Consts
@@ -854,5 +863,20 @@ example :
     dirAscii (encFileAscii 9 [(.bigmat, m1), (.dense, m2)]) =
       some [("KA      ".toList, 4, 1, 2, 2), ("B       ".toList, 1, 1, 6, 4)] := by
   decide +kernel
+
+/-- **sparse_views_ascii.**  The sparse views of the ASCII reader on a written file (hypotheses of
+`file_roundtrip_ascii`): per matrix, `sparse=True` returns the triplets `cooListA` — the stored rows of
+`storedIdx_spec`, column by column, each with the printed decimal(s) `aEntry d cplx x` of the stored element —
+the column reader is `layOf` and `sparse=None` resolves to `autoOf` exactly as for binary files
+(`sparse_auto_rule`); all on top of `ADecOf` (`file_roundtrip_ascii`). -/
+theorem sparse_views_ascii (d : Nat) (hd : 1 ≤ d) (hd' : d ≤ 73) (ms : List (Layout × Mat)) (hne : ms ≠ [])
+    (hok : ∀ p ∈ ms, MatOK d p) :
+    ∃ ds, loadAscii (encFileAscii d ms) = some ds ∧
+      List.Forall₂ (fun (p : Layout × Mat) (a : ADec) => ADecOf d p a ∧ a.layout = layOf p.1 p.2 ∧
+        a.sparseAuto = autoOf p.1 p.2 ∧ cooOfPutsA a.puts = cooListA d p.1 p.2.cplx 0 p.2.cols) ms ds := by
+  have hp : 1 ≤ perline d := by
+    unfold perline numlen numlenBase expdigits lineWidth
+    exact (Nat.le_div_iff_mul_le (by omega)).2 (by omega)
+  exact loadAscii_encX d hd hp ms hne hok
 
 end PyYetiVerif.C04
